@@ -63,6 +63,19 @@ def check(tier, seed):
                 body[at:at] = ins
             body = bytes(b for b in body if b not in b'$*')
             streams.append((rng.choice([b'', b'\xb5\x62', b'x']) + G.nmea(body, case=rng.choice(['upper', 'lower'])) + G.nmea(b'GPGGA,2'), 'binary-body'))
+        # after a wrong checksum nothing is "resumed": `$body*<wrong>tail*<hh>` with hh = XOR of everything after the '$' is no sentence
+        for _ in range(60 if tier == 'quick' else 3000):
+            body = bytes(rng.choice(b'GPTXT,0123456789 ABC') for _ in range(rng.randrange(1, 12)))
+            x = 0
+            for ch in body:
+                x ^= ch
+            wrong = f'{x ^ rng.choice([1, 0x10, 0xFF]):02X}'.encode()
+            tail = bytes(rng.choice(b',0123456789ABC ') for _ in range(rng.randrange(0, 8)))
+            y = 0
+            for ch in body + b'*' + wrong + tail:
+                y ^= ch
+            streams.append((b'$' + body + b'*' + wrong + tail + b'*' + f'{y:02X}'.encode() + b'\r\n' + G.nmea(b'GPGGA,2'), 'resume-after-bad'))
+            streams.append((G.nmea(bytes(rng.choice(b'PMTKUBX0123456789') for _ in range(rng.randrange(1, 9)))) + G.nmea(b'GPGGA'), 'no-comma'))
         good = G.nmea(b'GPRMC,1')
         L = 3 if tier == 'quick' else 4
         for n in range(L + 1):
@@ -123,6 +136,27 @@ def check(tier, seed):
             impl = C.guarded(G.impl_nmea, [('P', s)])
             desc = {'stream_hex': C.hexs(s), 'kind': kind}
             cases.append(Case('nmea-count-spec', 'nmeacount ' + C.hexs(s), impl[3:] if impl.startswith('rx=') else impl, desc, nontrivial=False, kind=kind + '-spec'))
+        # the log level changes nothing: a sample of the streams again with the "ubxlib" logger at DEBUG
+        import logging
+        lg = logging.getLogger('ubxlib')
+        n_dbg = 0
+        for idx, (s, kind) in enumerate(streams):
+            if idx % 9 and kind not in ('no-comma', 'resume-after-bad', 'binary-body'):
+                continue
+            a_ = C.guarded(G.impl_nmea, [('P', s)])
+            logging.disable(logging.NOTSET)
+            lg.setLevel(logging.DEBUG)
+            if not lg.handlers:
+                lg.addHandler(logging.NullHandler())
+            try:
+                b_ = C.guarded(G.impl_nmea, [('P', s)])
+            finally:
+                lg.setLevel(logging.CRITICAL + 1)
+                logging.disable(logging.CRITICAL)
+            n_dbg += 1
+            if a_ != b_:
+                res.violation('NMEA counter differs with the logger at DEBUG', {'property': 'C16', 'input': {'stream_hex': C.hexs(s), 'kind': kind}, 'logging_disabled': a_, 'logging_debug': b_}, 'c16-debug|' + kind)
+        res.notes['streams_repeated_at_DEBUG'] = n_dbg
         res.compare(cases)
         res.oblige('correspondence NmeaParser (Tie A)', not res.disagreements)
         res.oblige('independent count oracle', not res.violations)
